@@ -7,7 +7,14 @@ import DulwichModel.Model.ReceivePack
 namespace Dulwich.ReceivePack
 open Dulwich
 open Dulwich.Gen.ReceivePack (okMsg staleMsg missingMsg failedDeleteMsg failedWriteMsg badRefMsg
-  atomicFailedMsg unpackName)
+  atomicFailedMsg unpackName atomicCap)
+
+instance {ε α : Type} [DecidableEq ε] [DecidableEq α] : DecidableEq (Except ε α) := fun a b =>
+  match a, b with
+  | .ok x, .ok y => if h : x = y then isTrue (by rw [h]) else isFalse (fun e => h (Except.ok.inj e))
+  | .error x, .error y => if h : x = y then isTrue (by rw [h]) else isFalse (fun e => h (Except.error.inj e))
+  | .ok _, .error _ => isFalse (fun e => by cases e)
+  | .error _, .ok _ => isFalse (fun e => by cases e)
 
 /-! ### the status literals are pairwise what the proofs need (re-checked against the source every run) -/
 
@@ -623,5 +630,327 @@ theorem applyPack_cases (fl : Flags) (env : Env) (caps : List Bytes) (s : Srv) (
       · exact Or.inr ⟨rfl, rfl⟩
   · simp only [hw]
     exact Or.inl rfl
+
+/-! ### `LocalGitClient.send_pack`: the status comes from the compare-and-swap -/
+
+/-- the value a local command `(name, new)` asks for -/
+def localTarget (c : Name × Id) : Option Id := if isZero c.2 then none else some c.2
+
+/-- refs after a successful local update -/
+def localApplied (r : Refs) (c : Name × Id) : Refs := if isZero c.2 then r.del c.1 else r.set c.1 c.2
+
+theorem localApplied_self (r : Refs) (c : Name × Id) : localApplied r c c.1 = localTarget c := by
+  unfold localApplied localTarget Refs.del Refs.set
+  split <;> simp
+
+theorem localApplied_other (r : Refs) (c : Name × Id) {n : Name} (h : n ≠ c.1) : localApplied r c n = r n := by
+  unfold localApplied Refs.del Refs.set
+  split <;> simp [h]
+
+/-- One iteration: success is recorded exactly when the current value equals the old value the client read;
+then the ref holds the requested value, otherwise nothing changed.  Uses `Gen.localUsesCasResult = true`
+(the source tests `if not target.refs.set_if_equals(...)`). -/
+theorem localStep_spec (snap : Refs) (t : LocalRepo) (c : Name × Id) :
+    (localStep snap t c).1.store = t.store ∧
+    ((cur t.refs c.1 = snapOld snap c.1 ∧ (localStep snap t c).2 = none ∧
+        (localStep snap t c).1.refs = localApplied t.refs c) ∨
+     (cur t.refs c.1 ≠ snapOld snap c.1 ∧ (localStep snap t c).2 ≠ none ∧
+        (localStep snap t c).1.refs = t.refs)) := by
+  have hg : Gen.ReceivePack.localUsesCasResult = true := rfl
+  unfold localStep localApplied removeIfEquals setIfEquals
+  by_cases hz : isZero c.2 = true <;> by_cases hc : cur t.refs c.1 = snapOld snap c.1 <;>
+    simp [hz, hc, hg]
+
+theorem localApply_store (snap : Refs) (t : LocalRepo) (cmds : List (Name × Id)) :
+    (localApply snap t cmds).1.store = t.store := by
+  induction cmds generalizing t with
+  | nil => rfl
+  | cons c cs ih =>
+    unfold localApply
+    simp only
+    rw [ih, (localStep_spec snap t c).1]
+
+theorem localStep_frame (snap : Refs) (t : LocalRepo) (c : Name × Id) {n : Name} (h : n ≠ c.1) :
+    (localStep snap t c).1.refs n = t.refs n := by
+  rcases (localStep_spec snap t c).2 with ⟨_, _, h3⟩ | ⟨_, _, h3⟩
+  · rw [h3, localApplied_other _ _ h]
+  · rw [h3]
+
+theorem localApply_frame (snap : Refs) (t : LocalRepo) (cmds : List (Name × Id)) (n : Name)
+    (hn : n ∉ cmds.map (·.1)) : (localApply snap t cmds).1.refs n = t.refs n := by
+  induction cmds generalizing t with
+  | nil => rfl
+  | cons c cs ih =>
+    simp only [List.map_cons, List.mem_cons, not_or] at hn
+    unfold localApply
+    simp only
+    rw [ih _ hn.2, localStep_frame snap t c hn.1]
+
+/-- the status of a local command, as `LocalGitClient.send_pack` records it, is exact -/
+def LocalExact (snap : Refs) (before : Refs) (after : Option Id) (c : Name × Id) (m : Option LocalMsg) : Prop :=
+  (cur before c.1 = snapOld snap c.1 ∧ m = none ∧ after = localTarget c) ∨
+  (cur before c.1 ≠ snapOld snap c.1 ∧ m ≠ none ∧ after = before c.1)
+
+theorem lookup_cons_self {β : Type} (n : Bytes) (v : β) (l : List (Bytes × β)) :
+    ((n, v) :: l).lookup n = some v := by simp [List.lookup]
+
+theorem lookup_cons_ne {β : Type} {n k : Bytes} (v : β) (l : List (Bytes × β)) (h : n ≠ k) :
+    ((k, v) :: l).lookup n = l.lookup n := by
+  have : (n == k) = false := by simpa using h
+  simp [List.lookup, this]
+
+theorem localApply_exact (snap : Refs) (t : LocalRepo) (cmds : List (Name × Id))
+    (hnd : (cmds.map (·.1)).Nodup) :
+    ∀ c ∈ cmds, ∃ m, (localApply snap t cmds).2.lookup c.1 = some m ∧
+      LocalExact snap t.refs ((localApply snap t cmds).1.refs c.1) c m := by
+  induction cmds generalizing t with
+  | nil => intro c hc; cases hc
+  | cons c0 cs ih =>
+    simp only [List.map_cons, List.nodup_cons] at hnd
+    intro c hc
+    unfold localApply
+    simp only
+    rcases List.mem_cons.mp hc with rfl | hc
+    · refine ⟨(localStep snap t c).2, lookup_cons_self _ _ _, ?_⟩
+      rw [localApply_frame snap _ cs c.1 hnd.1]
+      rcases (localStep_spec snap t c).2 with ⟨h1, h2, h3⟩ | ⟨h1, h2, h3⟩
+      · exact Or.inl ⟨h1, h2, by rw [h3, localApplied_self]⟩
+      · exact Or.inr ⟨h1, h2, by rw [h3]⟩
+    · have hne : c.1 ≠ c0.1 := by
+        intro e
+        exact hnd.1 (e ▸ List.mem_map_of_mem hc)
+      obtain ⟨m, hm, hres⟩ := ih (localStep snap t c0).1 hnd.2 c hc
+      refine ⟨m, by rw [lookup_cons_ne _ _ hne]; exact hm, ?_⟩
+      unfold LocalExact cur at hres ⊢
+      rw [localStep_frame snap t c0 hne] at hres
+      exact hres
+
+/-! ### status report: what the server writes is what the client reads -/
+
+open Dulwich.Gen.ReceivePack in
+/-- a ref name as it can occur in a status line: non-empty, no whitespace byte, not the word `unpack` -/
+def CleanName (n : Bytes) : Prop := n ≠ [] ∧ (∀ b ∈ n, isWs b = false) ∧ n ≠ rsUnpackName
+
+/-- a status message: non-empty, first and last byte not whitespace (inner spaces allowed) -/
+def CleanMsg (m : Bytes) : Prop :=
+  ∃ a mid z, (m = [a] ∨ m = a :: (mid ++ [z])) ∧ isWs a = false ∧ isWs z = false
+
+theorem rstrip_snoc_nl (l : Bytes) (z : UInt8) (hz : isWs z = false) (w : UInt8) (hw : isWs w = true) :
+    rstrip ((l ++ [z]) ++ [w]) = l ++ [z] := by
+  unfold rstrip
+  simp [List.reverse_append, List.dropWhile, hz, hw]
+
+theorem lstrip_cons (a : UInt8) (l : Bytes) (ha : isWs a = false) : lstrip (a :: l) = a :: l := by
+  simp [lstrip, List.dropWhile, ha]
+
+theorem splitOnce_append (sep : UInt8) (n r : Bytes) (h : ∀ b ∈ n, b ≠ sep) :
+    splitOnce sep (n ++ sep :: r) = some (n, r) := by
+  induction n with
+  | nil => simp [splitOnce]
+  | cons a n ih =>
+    have ha : a ≠ sep := h a List.mem_cons_self
+    have := ih (fun b hb => h b (List.mem_cons_of_mem _ hb))
+    simp [splitOnce, ha, this]
+
+theorem isWs_sep_of_clean {n : Bytes} (h : ∀ b ∈ n, isWs b = false) : ∀ b ∈ n, b ≠ (32 : UInt8) := by
+  intro b hb e
+  have := h b hb
+  rw [e] at this
+  revert this
+  decide
+
+/-- a line `a :: body ++ [z]` with non-blank ends, followed by a newline, strips to itself -/
+theorem strip_line (a z : UInt8) (body : Bytes) (ha : isWs a = false) (hz : isWs z = false) :
+    strip ((a :: (body ++ [z])) ++ [10]) = a :: (body ++ [z]) := by
+  unfold strip
+  rw [List.cons_append, lstrip_cons _ _ ha]
+  have := rstrip_snoc_nl (a :: body) z hz 10 (by decide)
+  simpa using this
+
+theorem snoc_of_ne_nil (l : Bytes) (h : l ≠ []) : ∃ l' z, l = l' ++ [z] ∧ z ∈ l :=
+  ⟨l.dropLast, l.getLast h, (List.dropLast_concat_getLast h).symm, List.getLast_mem h⟩
+
+/-- the status value the client derives from a server-side message -/
+def clientStatus (p : Bytes × Bytes) : Bytes × Option Bytes :=
+  (p.1, if p.2 = Gen.ReceivePack.okMsg then none else some p.2)
+
+/-- One status line through `pkt.strip()` and the `check()` splitting: an `ok` entry. -/
+theorem line_ok (n : Bytes) (hn : CleanName n) (rest : List Bytes) :
+    checkStatuses (strip (statusLine (n, Gen.ReceivePack.okMsg)) :: rest) =
+      (match checkStatuses rest with
+       | .error e => .error e
+       | .ok l => .ok ((n, none) :: l)) := by
+  obtain ⟨hne, hws, hun⟩ := hn
+  obtain ⟨n', z, rfl, hz⟩ := snoc_of_ne_nil n hne
+  have hzw : isWs z = false := hws z hz
+  have hline : statusLine (n' ++ [z], Gen.ReceivePack.okMsg) = (111 :: ((107 :: 32 :: n') ++ [z])) ++ [10] := by
+    have h1 : ¬ (n' ++ [z] = Gen.ReceivePack.rsUnpackName) := hun
+    simp [statusLine, h1, renderParts, Gen.ReceivePack.fmtOk, Gen.ReceivePack.rsOkMsg, Gen.ReceivePack.okMsg]
+  rw [hline, strip_line 111 z _ (by decide) hzw]
+  have hs : splitOnce Gen.ReceivePack.parserSep (111 :: ((107 :: 32 :: n') ++ [z])) = some ([111, 107], n' ++ [z]) := by
+    have := splitOnce_append 32 [111, 107] (n' ++ [z]) (by decide)
+    simpa [Gen.ReceivePack.parserSep] using this
+  simp only [checkStatuses, hs]
+  cases checkStatuses rest <;> simp [Gen.ReceivePack.parserNg, Gen.ReceivePack.parserOk]
+
+/-- One status line: an `ng` entry. -/
+theorem line_ng (n m : Bytes) (hn : CleanName n) (hm : CleanMsg m) (hne : m ≠ Gen.ReceivePack.okMsg)
+    (rest : List Bytes) :
+    checkStatuses (strip (statusLine (n, m)) :: rest) =
+      (match checkStatuses rest with
+       | .error e => .error e
+       | .ok l => .ok ((n, some m) :: l)) := by
+  obtain ⟨hnn, hws, hun⟩ := hn
+  obtain ⟨a, mid, z, hm, ha, hz⟩ := hm
+  have h1 : ¬ (n = Gen.ReceivePack.rsUnpackName) := hun
+  have h2 : ¬ (m = Gen.ReceivePack.rsOkMsg) := hne
+  -- the message as `m' ++ [z']` with a non-blank last byte
+  obtain ⟨m', z', hmz, hz'⟩ : ∃ m' z', m = m' ++ [z'] ∧ isWs z' = false := by
+    rcases hm with rfl | rfl
+    · exact ⟨[], a, rfl, ha⟩
+    · exact ⟨a :: mid, z, rfl, hz⟩
+  have hline : statusLine (n, m) = (110 :: ((103 :: 32 :: (n ++ 32 :: m')) ++ [z'])) ++ [10] := by
+    subst hmz
+    simp [statusLine, h1, h2, renderParts, Gen.ReceivePack.fmtNg]
+  rw [hline, strip_line 110 z' _ (by decide) hz']
+  have hs : splitOnce Gen.ReceivePack.parserSep (110 :: ((103 :: 32 :: (n ++ 32 :: m')) ++ [z'])) =
+      some ([110, 103], n ++ 32 :: m) := by
+    have := splitOnce_append 32 [110, 103] (n ++ 32 :: m) (by decide)
+    subst hmz
+    simpa [Gen.ReceivePack.parserSep] using this
+  have hs2 : splitOnce Gen.ReceivePack.parserSep (n ++ 32 :: m) = some (n, m) := by
+    have := splitOnce_append 32 n m (isWs_sep_of_clean hws)
+    simpa [Gen.ReceivePack.parserSep] using this
+  simp only [checkStatuses, hs]
+  cases checkStatuses rest <;> simp [Gen.ReceivePack.parserNg, hs2]
+
+theorem checkStatuses_report (st : List (Bytes × Bytes))
+    (h : ∀ p ∈ st, CleanName p.1 ∧ (p.2 = Gen.ReceivePack.okMsg ∨ CleanMsg p.2)) :
+    checkStatuses (st.map (fun p => strip (statusLine p))) = .ok (st.map clientStatus) := by
+  induction st with
+  | nil => rfl
+  | cons p st ih =>
+    obtain ⟨n, m⟩ := p
+    have hp := h (n, m) List.mem_cons_self
+    have ih' := ih (fun q hq => h q (List.mem_cons_of_mem _ hq))
+    simp only [List.map_cons]
+    by_cases hm : m = Gen.ReceivePack.okMsg
+    · subst hm
+      rw [line_ok n hp.1, ih']
+      simp [clientStatus]
+    · have hc : CleanMsg m := by
+        rcases hp.2 with h | h
+        · exact absurd h hm
+        · exact h
+      rw [line_ng n m hp.1 hc hm, ih']
+      simp [clientStatus, hm]
+
+theorem handlePacket_line (p : Parser) (x l : Bytes) (hd : p.done = false) (hp : p.packStatus = some x) :
+    p.handlePacket (some l) = .ok { p with refStatuses := p.refStatuses ++ [strip l] } := by
+  simp [Parser.handlePacket, hd, hp]
+
+theorem feed_lines (p : Parser) (x : Bytes) (hd : p.done = false) (hp : p.packStatus = some x)
+    (ls : List Bytes) :
+    p.feed (ls.map some ++ [none]) =
+      .ok { done := true, packStatus := some x, refStatuses := p.refStatuses ++ ls.map strip } := by
+  induction ls generalizing p with
+  | nil =>
+    simp [Parser.feed, Parser.handlePacket, hd, hp]
+  | cons l ls ih =>
+    simp only [List.map_cons, List.cons_append, Parser.feed]
+    rw [handlePacket_line p x l hd hp]
+    simp only
+    rw [ih ⟨p.done, p.packStatus, p.refStatuses ++ [strip l]⟩ hd hp]
+    simp
+
+theorem lookup_map_some {α β : Type} (g : α → β) (pre : List (Bytes × α)) (n : Bytes)
+    (h : n ∈ pre.map (·.1)) : ∃ m, (pre.map (fun p => (p.1, some (g p.2)))).lookup n = some (some m) := by
+  induction pre with
+  | nil => cases h
+  | cons p pre ih =>
+    by_cases e : n = p.1
+    · exact ⟨g p.2, by simp only [List.map_cons]; rw [e]; exact lookup_cons_self _ _ _⟩
+    · have : n ∈ pre.map (·.1) := by
+        simp only [List.map_cons, List.mem_cons] at h
+        rcases h with h | h
+        · exact absurd h e
+        · exact h
+      obtain ⟨m, hm⟩ := ih this
+      exact ⟨m, by simp only [List.map_cons]; rw [lookup_cons_ne _ _ e]; exact hm⟩
+
+/-! ### `_apply_pack` level (used by Props/C06.lean) -/
+
+/-- "the push reports success for ref `n`": no exception escaped the handler and the status entry for `n`
+(after the `unpack` entry) is `ok`. -/
+abbrev reportedOk (o : Outcome) (n : Name) : Prop :=
+  o.raised = none ∧ (o.status.drop 1).lookup n = some okMsg
+
+abbrev distinctNames (cmds : List Cmd) : Prop := (cmds.map (·.name)).Nodup
+
+
+/-- per-command relation between status, ref before and ref after, for `_apply_pack` -/
+theorem applyPack_cmd (fl : Flags) (env : Env) (caps : List Bytes) (s : Srv) (u : Unpack) (cmds : List Cmd)
+    (hs : HookSane env) (hnd : distinctNames cmds) (hr : (applyPack fl env caps s u cmds).raised = none) :
+    ∀ c ∈ cmds,
+      ((applyPack fl env caps s u cmds).srv.refs c.name = s.refs c.name ∧
+        ¬ reportedOk (applyPack fl env caps s u cmds) c.name) ∨
+      ∃ m, ((applyPack fl env caps s u cmds).status.drop 1).lookup c.name = some m ∧
+        CmdResult fl s.refs (storeAfterUnpack s u cmds) ((applyPack fl env caps s u cmds).srv.refs c.name) c m := by
+  intro c hc
+  rcases applyPack_cases fl env caps s u cmds with h | ⟨h1, h2⟩
+  · right
+    rw [h] at hr ⊢
+    simp only at hr
+    exact refLoop_cmd fl env caps hs ⟨s.refs, storeAfterUnpack s u cmds⟩ cmds hnd hr c hc
+  · left
+    refine ⟨by rw [h1], ?_⟩
+    rintro ⟨_, h⟩
+    rw [h2] at h
+    cases h
+
+theorem target_ne_of_match {r : Refs} {c : Cmd} (hm : cur r c.name = c.old) (hne : c.old ≠ c.new) :
+    r c.name ≠ c.target := by
+  intro e
+  unfold cur at hm
+  unfold Cmd.target at e
+  split at e
+  · rename_i hz
+    rw [e] at hm
+    simp only at hm
+    exact hne (by rw [← hm]; exact (by simpa [isZero] using hz : c.new = zeroSha).symm)
+  · rw [e] at hm
+    simp only at hm
+    exact hne hm.symm
+
+
+theorem quiet_sane : HookSane Env.quiet := fun _ => by simp [Env.quiet]
+
+
+/-- general form: the invariant is preserved when every new value that is not checked by the code is in the
+store after unpacking -/
+theorem applyPack_inStore_gen (fl : Flags) (env : Env) (caps : List Bytes) (s : Srv) (u : Unpack)
+    (cmds : List Cmd) (hs : HookSane env) (hi : RefsInStore s)
+    (hnew : ∀ c ∈ cmds, isZero c.new = false → fl.checkNew = false → storeAfterUnpack s u cmds c.new = true) :
+    RefsInStore (applyPack fl env caps s u cmds).srv := by
+  rcases applyPack_cases fl env caps s u cmds with h | ⟨h1, _⟩
+  · rw [h]
+    apply refLoop_inStore fl env caps hs ⟨s.refs, storeAfterUnpack s u cmds⟩ cmds hnew
+    intro n v hv
+    exact storeAfterUnpack_mono s u cmds v (hi n v hv)
+  · rw [h1]; exact hi
+
+
+theorem applyPack_atomic_gen (fl : Flags) (env : Env) (caps : List Bytes) (s : Srv) (u : Unpack) (cmds : List Cmd)
+    (hat : caps.contains atomicCap = true) (hnd : distinctNames cmds) (hf : ∀ c ∈ cmds, env.fault c.name = none)
+    (happ : (fl.atomicOld = true ∧ fl.checkNew = true) ∨
+      ∀ c ∈ cmds, cur s.refs c.name = c.old ∧ (isZero c.new = false → storeAfterUnpack s u cmds c.new = true)) :
+    (applyPack fl env caps s u cmds).srv.refs = s.refs ∨
+      ∀ c ∈ cmds, (applyPack fl env caps s u cmds).srv.refs c.name = c.target := by
+  rcases applyPack_cases fl env caps s u cmds with h | ⟨h1, _⟩
+  · rw [h]
+    exact refLoop_atomic fl env caps ⟨s.refs, storeAfterUnpack s u cmds⟩ cmds hat hnd hf happ
+  · left; rw [h1]
+
+
 
 end Dulwich.ReceivePack
